@@ -409,7 +409,24 @@ def files(draw, prof=None):
                 else:
                     c = _new_routine('sub', f'{b.pick(SUB_STEMS) if p["kw_names"] else "sub"}_in{n}', 'x')
                 r['contains'].append(c)
+        # shadowing: an internal FUNCTION named like a module function defined EARLIER in the same module, used in
+        # an expression of the host (the internal function, not the module function, is what the host references)
+        shadow = None
+        if (p.get('shadow_internal', True) and p['internal'] and p['functions'] and depth == 0 and mod is not None
+                and r['k'] == 'sub' and r['sig'] == 'x' and not no_internal):
+            ridx = next(k for k, rr in enumerate(mod['routines']) if rr is r)
+            earlier = [rr for rr in mod['routines'][:ridx] if rr['sig'] == 'fun']
+            if earlier and b.chance(40):
+                shadow = _new_routine('fun', b.pick(earlier)['name'], 'fun')
+                shadow['_shadow'] = True
+                r['contains'].append(shadow)
         r['body'] = _body(b, env, p['max_depth'], b.i(1, p['max_stmts']))
+        if shadow is not None:
+            r['body'].append(['assign', ['v', 'x'], ['f', shadow['name'], [['v', 'x']]], {}])
+        if r.get('_shadow') and p['ext_modules']:
+            # make the internal function differ from its module-level namesake in imports and call targets
+            local = access(b, scope, 'use_ext', 'ys0', at='self')
+            r['body'].append(['call', [local], [['v', 'x']], {}])
         for c in r['contains']:
             fill(c, scope, mod, mi_limit, depth + 1, tuple(hosts) + (r,))
 
@@ -461,7 +478,7 @@ def files(draw, prof=None):
         banned = [h for h in env['hosts'] + [r] if 'recursive' not in ' '.join(h['prefix'])]
         if mod is not None:
             out += [('same', rr['name'], None) for rr in mod['routines'] if rr['sig'] == 'fun'
-                    and not any(rr is h for h in banned)]
+                    and not any(rr is h for h in banned) and not (r.get('_shadow') and rr['name'] == r['name'])]
         for mm in modules[:env['limit']]:
             out += [('mod', rr['name'], mm['name']) for rr in mm['routines'] if rr['sig'] == 'fun']
         out += [('internal', c['name'], None) for c in r['contains'] if c['k'] == 'fun']
